@@ -7,18 +7,24 @@
 //! pref    := "i" (inherit from the request; config only) | "a" (Any) | "d"<dc> | "r"<dc>"."<rack>
 //! request := (token|"-") "/" (keyspace index|"-") "/" ("0"|"1") "/" consistency "/" serial "/" pref
 //! ```
+//! The flags word may also carry `s<nr_shards>.<msb_ignore>`: that peer gets a sharder (hook `set_sharders`), so the
+//! shard the policy supplies for a replica is a real number; a peer without it answers shard 0.
 //! The cluster is built through `ClusterState::new` (hook `cluster_from_topology`, pool-less nodes whose
-//! `is_enabled` / `is_connected` answer the flags); the policy through `DefaultPolicy::builder()`; per sample one
-//! `policy.pick(..)`, one `policy.fallback(..)` and one `Plan::new(..)` iterated to exhaustion (thread RNG).
-//! Pool-less nodes have no sharder: every shard is 0, so only *whether* the policy supplied a shard is printed (`s`).
+//! `is_enabled` / `is_connected` / `sharder` answer the flags); the policy through `DefaultPolicy::builder()`; per
+//! sample one `policy.pick(..)`, one `policy.fallback(..)` and one `Plan::new(..)` iterated to exhaustion (thread RNG).
+//! The sample count must be positive.
 //!
-//! Output: `set=<ids of the first plan, sorted> rep=<ids with a shard in the first fallback, sorted>
-//! lwt=<replica prefix of the first fallback | x> | P<pick>/F<fallback>/L<plan> ...`.
+//! Output: `set=<ids of the first plan, sorted> rep=<targets with a shard in the first fallback, by id>
+//! lwt=<replica prefix of the first fallback | x> det=<the plan's ids if every sample gave the same plan | *> |
+//! P<pick>/F<fallback>/L<plan> ...` with `target := id ["@" shard]` (the plan's targets always carry a shard: `Plan`
+//! draws one below the node's shard count when the policy supplied none).
 //!
-//! Oracle (independent of the Lean model; replicas by a brute-force transcription of the two placement rules):
-//! no node twice in a plan, no disabled node, no node outside the preferred datacenter unless failover is permitted,
-//! every other enabled token-owning node present, live replicas first (local rack, local datacenter, remote), live
-//! nodes before down nodes, for LWT requests the same replica prefix in every sampled plan and in ring order.
+//! Oracle (independent of the Lean model; replicas by a brute-force transcription of the two placement rules, shards
+//! by the C11 rule): no node twice in a plan, no disabled node, no node outside the preferred datacenter unless
+//! failover is permitted, every other enabled token-owning node present, live replicas first (local rack, local
+//! datacenter, remote), live nodes before down nodes, for LWT requests the same replica prefix in every sampled plan
+//! and in ring order, with replica shuffling disabled the same replica pick / replica order in every sample, every
+//! supplied shard = the token's shard on that node, every drawn shard below the node's shard count.
 use crate::rng::Rng;
 use crate::topology::*;
 use crate::util::nat_list;
@@ -28,6 +34,7 @@ use scylla::frame::response::result::TableSpec;
 use scylla::frame::types::{Consistency, SerialConsistency};
 use scylla::policies::load_balancing::{DefaultPolicy, LoadBalancingPolicy, Plan, RoutingInfo};
 use scylla::routing::{NodeLocationPreference, Token};
+use scylla::verif_hooks::cluster::set_sharders;
 use std::cell::RefCell;
 use std::collections::HashMap;
 use std::rc::Rc;
@@ -170,7 +177,13 @@ thread_local! {
     static CACHE: RefCell<HashMap<String, Rc<ClusterState>>> = RefCell::new(HashMap::new());
 }
 
-fn cluster(topo_s: &str, peers: &[PeerSpec], ks_s: &str, ks: &[Strat]) -> Rc<ClusterState> {
+fn cluster(
+    topo_s: &str,
+    peers: &[PeerSpec],
+    ks_s: &str,
+    ks: &[Strat],
+    sharders: &HashMap<uuid::Uuid, (u16, u8)>,
+) -> Rc<ClusterState> {
     let key = format!("{} {}", topo_s, ks_s);
     CACHE.with(|c| {
         let mut c = c.borrow_mut();
@@ -181,6 +194,8 @@ fn cluster(topo_s: &str, peers: &[PeerSpec], ks_s: &str, ks: &[Strat]) -> Rc<Clu
             c.clear();
         }
         let cs = Rc::new(build_cluster(peers, ks));
+        // pool-less nodes get the sharder the flags word asks for (`Node::sharder()` answers it)
+        set_sharders(&cs, sharders);
         c.insert(key, cs.clone());
         cs
     })
@@ -253,16 +268,39 @@ fn brute_replicas(peers: &[PeerSpec], strat: &Strat, tok: i64) -> Vec<usize> {
 
 // ---------------------------------------------------------------------------------------------
 
-fn obs(id: u64, sharded: bool) -> String {
-    if sharded { format!("{}s", id) } else { id.to_string() }
+/// Sharder of a peer from its flags word: `s<nr_shards>.<msb_ignore>` (absent = no sharder, shard 0).
+fn sharder_of(flags: &str) -> Option<Option<(u16, u8)>> {
+    match flags.split_once('s') {
+        None => Some(None),
+        Some((_, spec)) => {
+            let (n, m) = spec.split_once('.')?;
+            let (n, m): (u16, u8) = (n.parse().ok()?, m.parse().ok()?);
+            if n == 0 || m >= 64 {
+                return None;
+            }
+            Some(Some((n, m)))
+        }
+    }
 }
 
-fn obs_list(v: &[(u64, bool)]) -> String {
-    if v.is_empty() {
-        "-".into()
-    } else {
-        v.iter().map(|(i, s)| obs(*i, *s)).collect::<Vec<_>>().join(",")
+/// ScyllaDB's shard-of-token rule as the C11 property states it (independent of `Sharder::shard_of`).
+fn spec_shard(nr_shards: u16, msb: u8, tok: i64) -> u32 {
+    let biased = (tok as i128 + (1i128 << 63)) as u64;
+    let shifted = if msb == 0 { biased } else { biased << msb };
+    ((shifted as u128 * nr_shards as u128) >> 64) as u32
+}
+
+type Obs = (u64, Option<u32>);
+
+fn obs(o: &Obs) -> String {
+    match o.1 {
+        Some(s) => format!("{}@{}", o.0, s),
+        None => o.0.to_string(),
     }
+}
+
+fn obs_list(v: &[Obs]) -> String {
+    if v.is_empty() { "-".into() } else { v.iter().map(obs).collect::<Vec<_>>().join(",") }
 }
 
 pub fn run(case: &str, ctx: &mut Ctx) -> String {
@@ -275,7 +313,22 @@ pub fn run(case: &str, ctx: &mut Ctx) -> String {
     else {
         return "bad-case".into();
     };
-    let cs = cluster(w[1], &peers, w[2], &kss);
+    if samples == 0 {
+        return "bad-case".into();
+    }
+    let mut sharders: HashMap<uuid::Uuid, (u16, u8)> = HashMap::new();
+    let mut sharder_by_id: HashMap<u64, (u16, u8)> = HashMap::new();
+    for p in &peers {
+        match sharder_of(&p.flags) {
+            None => return "bad-case".into(),
+            Some(None) => {}
+            Some(Some(sh)) => {
+                sharders.insert(host_id(p.id), sh);
+                sharder_by_id.insert(p.id, sh);
+            }
+        }
+    }
+    let cs = cluster(w[1], &peers, w[2], &kss, &sharders);
 
     // the policy, through the public builder
     let mut b = DefaultPolicy::builder()
@@ -313,7 +366,11 @@ pub fn run(case: &str, ctx: &mut Ctx) -> String {
         v.sort_unstable();
         v
     };
-    let lwt = rq.lwt || matches!(rq.consistency, Consistency::Serial | Consistency::LocalSerial);
+    // the code's own answer to "is this request routed as LWT", cross-checked with the statement's rule
+    let lwt = ri.should_route_as_lwt();
+    if lwt != (rq.lwt || matches!(rq.consistency, Consistency::Serial | Consistency::LocalSerial)) {
+        ctx.fail("should_route_as_lwt disagrees with: confirmed LWT, or consistency SERIAL / LOCAL_SERIAL".to_string());
+    }
     let strat: Option<&Strat> = if cfg.token_aware && rq.token.is_some() { rq.ks.and_then(|k| kss.get(k)) } else { None };
     let tok = rq.token.map(norm_token).unwrap_or(0);
     let replicas: Vec<u64> =
@@ -323,6 +380,8 @@ pub fn run(case: &str, ctx: &mut Ctx) -> String {
         .enumerate()
         .map(|(pos, i)| (peers[i].id, pos))
         .collect();
+    let nr_shards = |id: u64| -> u32 { sharder_by_id.get(&id).map(|s| s.0 as u32).unwrap_or(1) };
+    let shard_of = |id: u64| -> u32 { sharder_by_id.get(&id).map(|s| spec_shard(s.0, s.1, tok)).unwrap_or(0) };
     // coarse order classes of the statement: live replica in the local rack / local datacenter / elsewhere,
     // other live node, node believed down
     let class = |id: u64| -> u8 {
@@ -341,26 +400,30 @@ pub fn run(case: &str, ctx: &mut Ctx) -> String {
     };
 
     let mut out_samples: Vec<String> = Vec::new();
+    let mut plans: Vec<Vec<(u64, u32)>> = Vec::new();
     let mut first_set: Option<Vec<u64>> = None;
-    let mut first_rep: Option<Vec<u64>> = None;
-    let mut first_lwt: Option<Vec<u64>> = None;
-    let mut lwt_prefix: Option<Vec<u64>> = None;
+    let mut first_rep: Option<Vec<Obs>> = None;
+    let mut first_lwt: Option<Vec<Obs>> = None;
+    let mut replica_prefix: Option<Vec<u64>> = None;
+    let mut fixed_pick: Option<Option<Obs>> = None;
+    let mut fixed_fb: Option<Vec<Obs>> = None;
     for k in 0..samples {
-        let picked: Option<(u64, bool)> = policy.pick(&ri, &cs).map(|(n, s)| (node_id(n.host_id), s.is_some()));
-        let fb: Vec<(u64, bool)> = policy.fallback(&ri, &cs).map(|(n, s)| (node_id(n.host_id), s.is_some())).collect();
-        let plan: Vec<u64> = Plan::new(&*policy, &ri, &cs).map(|(n, _shard)| node_id(n.host_id)).collect();
+        let picked: Option<Obs> = policy.pick(&ri, &cs).map(|(n, s)| (node_id(n.host_id), s));
+        let fb: Vec<Obs> = policy.fallback(&ri, &cs).map(|(n, s)| (node_id(n.host_id), s)).collect();
+        let plan: Vec<(u64, u32)> = Plan::new(&*policy, &ri, &cs).map(|(n, shard)| (node_id(n.host_id), shard)).collect();
+        let plan_ids: Vec<u64> = plan.iter().map(|x| x.0).collect();
 
         // ---- oracle on the plan
-        for (i, id) in plan.iter().enumerate() {
-            if plan[..i].contains(id) {
-                ctx.fail(format!("sample {}: node {} twice in the plan {}", k, id, nat_list(&plan)));
+        for (i, (id, shard)) in plan.iter().enumerate() {
+            if plan_ids[..i].contains(id) {
+                ctx.fail(format!("sample {}: node {} twice in the plan {}", k, id, nat_list(&plan_ids)));
             }
             let Some(p) = by_id.get(id) else {
                 ctx.fail(format!("sample {}: unknown node {} in the plan", k, id));
                 continue;
             };
             if !enabled(p) {
-                ctx.fail(format!("sample {}: disabled node {} in the plan {}", k, id, nat_list(&plan)));
+                ctx.fail(format!("sample {}: disabled node {} in the plan {}", k, id, nat_list(&plan_ids)));
             }
             if !permitted(p) {
                 ctx.fail(format!(
@@ -368,33 +431,45 @@ pub fn run(case: &str, ctx: &mut Ctx) -> String {
                     k,
                     id,
                     pref.dc().unwrap_or(0),
-                    nat_list(&plan)
+                    nat_list(&plan_ids)
+                ));
+            }
+            if *shard >= nr_shards(*id) {
+                ctx.fail(format!("sample {}: shard {} of node {} is not below its shard count {}", k, shard, id, nr_shards(*id)));
+            }
+            if class(*id) <= 2 && *shard != shard_of(*id) {
+                ctx.fail(format!(
+                    "sample {}: replica {} is planned on shard {}, the token's shard there is {}",
+                    k,
+                    id,
+                    shard,
+                    shard_of(*id)
                 ));
             }
         }
         for id in &expected_set {
-            if !plan.contains(id) {
-                ctx.fail(format!("sample {}: enabled token-owning node {} missing from the plan {}", k, id, nat_list(&plan)));
+            if !plan_ids.contains(id) {
+                ctx.fail(format!("sample {}: enabled token-owning node {} missing from the plan {}", k, id, nat_list(&plan_ids)));
             }
         }
-        if plan.iter().all(|id| by_id.contains_key(id)) {
-            for i in 1..plan.len() {
-                if class(plan[i - 1]) > class(plan[i]) {
+        if plan_ids.iter().all(|id| by_id.contains_key(id)) {
+            for i in 1..plan_ids.len() {
+                if class(plan_ids[i - 1]) > class(plan_ids[i]) {
                     ctx.fail(format!(
                         "sample {}: order violated at position {}: node {} (class {}) before node {} (class {}) in {}",
                         k,
                         i,
-                        plan[i - 1],
-                        class(plan[i - 1]),
-                        plan[i],
-                        class(plan[i]),
-                        nat_list(&plan)
+                        plan_ids[i - 1],
+                        class(plan_ids[i - 1]),
+                        plan_ids[i],
+                        class(plan_ids[i]),
+                        nat_list(&plan_ids)
                     ));
                     break;
                 }
             }
+            let prefix: Vec<u64> = plan_ids.iter().copied().take_while(|id| class(*id) <= 2).collect();
             if lwt {
-                let prefix: Vec<u64> = plan.iter().copied().take_while(|id| class(*id) <= 2).collect();
                 // ring order within each replica class
                 for i in 1..prefix.len() {
                     if class(prefix[i - 1]) == class(prefix[i])
@@ -404,13 +479,17 @@ pub fn run(case: &str, ctx: &mut Ctx) -> String {
                         break;
                     }
                 }
-                match &lwt_prefix {
-                    None => lwt_prefix = Some(prefix),
+            }
+            // LWT, or replica shuffling disabled: one replica order for all plans of this policy
+            if lwt || !cfg.shuffle {
+                match &replica_prefix {
+                    None => replica_prefix = Some(prefix),
                     Some(p0) => {
                         if *p0 != prefix {
                             ctx.fail(format!(
-                                "sample {}: LWT replica prefix {} differs from the first sample's {}",
+                                "sample {}: {} replica prefix {} differs from the first sample's {}",
                                 k,
+                                if lwt { "LWT" } else { "shuffling-disabled" },
                                 nat_list(&prefix),
                                 nat_list(p0)
                             ));
@@ -419,28 +498,54 @@ pub fn run(case: &str, ctx: &mut Ctx) -> String {
                 }
             }
         }
-        // the fallback iterator itself must not repeat a target under the policy's own notion of equality
-        for (i, (id, _)) in fb.iter().enumerate() {
+        // the fallback iterator itself must not repeat a node, and a shard it supplies is the token's shard
+        for (i, (id, shard)) in fb.iter().enumerate() {
             if fb[..i].iter().any(|(j, _)| j == id) {
                 ctx.fail(format!("sample {}: node {} twice in fallback {}", k, id, obs_list(&fb)));
+            }
+            if let Some(s) = shard {
+                if *s != shard_of(*id) {
+                    ctx.fail(format!("sample {}: fallback gives node {} shard {}, the token's shard there is {}", k, id, s, shard_of(*id)));
+                }
+            }
+        }
+        if !cfg.shuffle {
+            let fixed_p = picked.filter(|p| p.1.is_some());
+            let fixed_f: Vec<Obs> = fb.iter().filter(|o| o.1.is_some()).cloned().collect();
+            match (&fixed_pick, &fixed_fb) {
+                (Some(p0), Some(f0)) => {
+                    if *p0 != fixed_p || *f0 != fixed_f {
+                        ctx.fail(format!(
+                            "sample {}: shuffling disabled, but the replica pick / replica order changed: {} / {}",
+                            k,
+                            fixed_p.as_ref().map(obs).unwrap_or_else(|| "-".into()),
+                            obs_list(&fixed_f)
+                        ));
+                    }
+                }
+                _ => {
+                    fixed_pick = Some(fixed_p);
+                    fixed_fb = Some(fixed_f);
+                }
             }
         }
 
         if first_set.is_none() {
-            let mut s = plan.clone();
+            let mut s = plan_ids.clone();
             s.sort_unstable();
             first_set = Some(s);
-            let mut r: Vec<u64> = fb.iter().filter(|(_, s)| *s).map(|(i, _)| *i).collect();
+            let mut r: Vec<Obs> = fb.iter().filter(|o| o.1.is_some()).cloned().collect();
             first_lwt = Some(r.clone());
             r.sort_unstable();
             first_rep = Some(r);
         }
         out_samples.push(format!(
             "P{}/F{}/L{}",
-            picked.map(|(i, s)| obs(i, s)).unwrap_or_else(|| "-".into()),
+            picked.as_ref().map(obs).unwrap_or_else(|| "-".into()),
             obs_list(&fb),
-            nat_list(&plan)
+            obs_list(&plan.iter().map(|(i, s)| (*i, Some(*s))).collect::<Vec<_>>())
         ));
+        plans.push(plan);
     }
     // developer statistics (C05_STATS=1): how many cases are sensitive to which breaking change
     if std::env::var_os("C05_STATS").is_some() {
@@ -489,11 +594,15 @@ pub fn run(case: &str, ctx: &mut Ctx) -> String {
         }
         eprintln!("C05STAT {}", tags.join(" "));
     }
+    // `det`: the plan when every sample gave the same one (shards of shard-less targets are random: ids only there)
+    let all_same = plans.windows(2).all(|w| w[0].iter().map(|x| x.0).eq(w[1].iter().map(|x| x.0)));
+    let det = if all_same { nat_list(&plans[0].iter().map(|x| x.0).collect::<Vec<_>>()) } else { "*".to_owned() };
     let mut line = format!(
-        "set={} rep={} lwt={} |",
+        "set={} rep={} lwt={} det={} |",
         nat_list(&first_set.unwrap_or_default()),
-        nat_list(&first_rep.unwrap_or_default()),
-        if lwt { nat_list(&first_lwt.unwrap_or_default()) } else { "x".into() }
+        obs_list(&first_rep.unwrap_or_default()),
+        if lwt { obs_list(&first_lwt.unwrap_or_default()) } else { "x".into() },
+        det
     );
     for s in out_samples {
         line.push(' ');
@@ -620,6 +729,18 @@ fn random_flags(rng: &mut Rng, peers: &mut [PeerSpec]) {
     }
 }
 
+/// Gives most nodes a sharder (`s<nr_shards>.<msb_ignore>` appended to the flags word), so that the shards the policy
+/// supplies for replicas are real numbers (shard-less peers answer shard 0).
+fn add_sharders(rng: &mut Rng, peers: &mut [PeerSpec]) {
+    for p in peers.iter_mut() {
+        if rng.chance(3, 4) {
+            let n = *rng.pick(&[1u32, 2, 3, 4, 7, 8, 16, 30, 64, 255]);
+            let msb = *rng.pick(&[0u32, 12, 12, 12, 1, 63]);
+            p.flags.push_str(&format!("s{}.{}", n, msb));
+        }
+    }
+}
+
 /// The `idx`-th assignment of {live, down, disabled} to the nodes (base 3).
 fn flags_by_index(peers: &mut [PeerSpec], mut idx: usize) {
     for p in peers.iter_mut() {
@@ -715,6 +836,7 @@ pub fn generate(rng: &mut Rng, tier: Tier, emit0: &mut dyn FnMut(String)) {
         let total = pow3(peers.len());
         for idx in 0..total {
             flags_by_index(&mut peers, idx);
+            add_sharders(rng, &mut peers);
             // every configuration for a few assignments, a stride of the grid for the others
             let stride = if idx % 9 == 4 { 1 } else { 7 };
             grid(rng, &peers, &kss, if quick { 8 } else { 12 }, stride, emit);
@@ -736,6 +858,7 @@ pub fn generate(rng: &mut Rng, tier: Tier, emit0: &mut dyn FnMut(String)) {
             } else {
                 random_flags(rng, &mut peers);
             }
+            add_sharders(rng, &mut peers);
             let topo = fmt_topology(&peers);
             for _ in 0..6 {
                 emit(format!(
@@ -779,6 +902,7 @@ pub fn generate(rng: &mut Rng, tier: Tier, emit0: &mut dyn FnMut(String)) {
                 _ => String::new(),
             };
         }
+        add_sharders(rng, &mut peers);
         let topo = fmt_topology(&peers);
         let toks = query_tokens(&peers);
         for _ in 0..6 {
@@ -815,6 +939,7 @@ pub fn generate(rng: &mut Rng, tier: Tier, emit0: &mut dyn FnMut(String)) {
         let mut peers = gen_topology(rng, big);
         let kss: Vec<Strat> = (0..2).map(|_| gen_strategy(rng, &peers)).collect();
         random_flags(rng, &mut peers);
+        add_sharders(rng, &mut peers);
         let topo = fmt_topology(&peers);
         for _ in 0..4 {
             emit(format!(
